@@ -421,7 +421,8 @@ def jsonOfCsvRead : Option (List Csv.Rec) → Json
 def opCsv (j : Json) : Json :=
   let d := dialectOfJson j
   let recs : List Csv.Rec := (getArr j "recs").toList.map (fun r => (recOfJson r).map String.toList)
-  let text := Csv.render d recs
+  -- `crlf`: the writer's default line terminator (data.csv, unmatched.csv, the header cache)
+  let text := if getBool j "crlf" then Csv.renderCRLF d recs else Csv.render d recs
   Json.mkObj [("text", toJson (String.ofList text)), ("read", jsonOfCsvRead (Csv.read d text))]
 
 /-- op `hdrcache`: header names → the text of the header cache file and what is read back from it -/
